@@ -5,8 +5,9 @@ import numpy as np
 
 from symx.harness import cone_set, src_info
 from checks import algo as A
+from checks import trans
 from checks.c19 import _alpha_for
-from checks.induct import induct_task, auer_induct_task, replay  # noqa: F401 (task entry points)
+from checks.induct import induct_task, auer_induct_task, auer_hist_task, replay  # noqa: F401 (task entry points)
 
 PROPERTY = "C01"
 
@@ -14,12 +15,13 @@ PROPERTY = "C01"
 def tasks(tier, seed):
     ts = []
     cones = cone_set(tier, seed=seed)
-    names = ["orthant2", "theta60", "theta120", "orthant3", "3d_obtuse", "icecream_K4"] if tier == "quick" else [c for c, _ in cones]
+    names = ["orthant2", "theta60", "theta120", "orthant3", "3d_obtuse", "icecream_K4"] if tier == "quick" else \
+        trans.THOROUGH_CONES + ["theta45", "theta135"]   # the whole 10°-grid with N = 4 was several hours
     for cone, W in cones:
         if cone not in names:
             continue
         K, m = W.shape
-        N = 3 if (tier == "quick" or m == 3) else 4
+        N = 4 if (tier != "quick" and cone in trans.N4_CONES) else 3
         for cls, ct in (("PaVeBa", None), ("PaVeBaGP", "hyperellipsoid"), ("PaVeBaPartialGP", "hyperellipsoid")):
             if tier == "quick" and cls != "PaVeBa" and cone not in ("orthant2", "theta120", "icecream_K4"):
                 continue
@@ -61,6 +63,15 @@ def tasks(tier, seed):
     for widths in ("homogeneous", "per_design"):
         ts.append({"id": f"step:Auer[{widths}]", "fn": "auer_induct_task",
                    "args": {"N": 3, "m": 2, "widths": widths, "tier": tier}, "weight": 100})
+    # reachable multi-round histories, also from sparse states where positions in S and design ids differ
+    # (widths equal across objectives only: the per-objective case is the open finding above)
+    for widths in ("homogeneous", "per_design"):
+        # (two rounds from the full three-design state did not finish in 40 min: two candidates left, more rounds instead)
+        for N, S0, rounds in ((3, (1, 2), 3), (3, (0, 2), 3)) if tier == "quick" else \
+                ((3, (1, 2), 4), (3, (0, 2), 4), (3, (0, 1), 3), (4, (1, 3), 3), (4, (2, 3), 3), (5, (4, 1), 3)):
+            ts.append({"id": f"hist:Auer[{widths},N={N},S0={list(S0)},rounds={rounds}]", "fn": "auer_hist_task",
+                       "args": {"N": N, "m": 2, "widths": widths, "tier": tier, "rounds": rounds, "initial_S": list(S0)},
+                       "weight": 60})
     for widths in ("homogeneous", "per_design", "per_objective"):
         ts.append({"id": f"base:Auer[{widths}]", "fn": "auer_induct_task",
                    "args": {"N": 2, "m": 2, "widths": widths, "tier": tier, "base_only": True}, "weight": 5})
@@ -75,7 +86,7 @@ def meta(tier):
     au = getattr(A.amod("Auer"), "Auer")
     fs += [au.discarding, au.pareto_updating, au.small_m, au.big_m]
     return {"level": "model_checking", "functions": src_info(*fs),
-            "bounds": {"N": "3 designs (4 thorough for 2-D cones); the induction makes the number of rounds unbounded for that N",
+            "bounds": {"N": "3 designs (4 in the thorough tier for orthant2, theta60, theta120); the induction makes the number of rounds unbounded for that N",
                        "m": "2..3", "regions": "rectangles: arbitrary with lower<upper; ellipsoids: ANY shape (through their "
                        "support intervals along the facet normals), incl. cones with K != m"},
             "stubs": ["region predicates as tables with their specification instantiated at the truths (C09/C10 contract)",
